@@ -5,6 +5,19 @@ or a type-checked structural rewrite.
 Every instance is recorded in the woven file (original text base64 in the marker) and
 listed in the evidence."""
 SHIMS = {
+    # lazy_static tables: the deref+clone is called out; the table *contents* are proved on the Kani side (C20 / mode constants)
+    'default-mode-clone': dict(pattern=r'_DEFAULT_MODE\.clone\(\)', replace=r'default_mode_clone()', spec='r@ == {DECAWM, DECTCEM}'),
+    'lat1-clone': dict(pattern=r'LAT1_MAP\.clone\(\)', replace=r'lat1_map_clone()', spec='r == lat1_map() (uninterpreted table; contents proved by Kani)'),
+    'vt100-clone': dict(pattern=r'VT100_MAP\.clone\(\)', replace=r'vt100_map_clone()', spec='r == vt100_map() (uninterpreted table; contents proved by Kani)'),
+    # self.tabstops.extend((8..self.columns).step_by(8))
+    'hs-extend-step8': dict(pattern=r'self\.tabstops\.extend\(\(8\.\.self\.columns\)\.step_by\(8\)\);', replace=r'hs_extend_step8(&mut self.tabstops, self.columns);',
+                            spec="S' = S u {8k : 8 <= 8k < n}"),
+    # tab(): `let mut vec: Vec<_> = S.iter().collect(); vec.sort();`  -> call-out returning the sorted references
+    'collect-sort': dict(pattern=r'let mut vec: Vec<_> = self\.tabstops\.iter\(\)\.collect\(\);\s*(?://[^\n]*\n\s*)*vec\.sort\(\);',
+                         replace=r'let mut vec: Vec<&u32> = sorted_refs(&self.tabstops);', spec='r strictly ascending; elements of r == elements of S'),
+    # `for &stop in vec.iter() {`: Verus rejects reference patterns in for; bind the reference and dereference it (same meaning for Copy types; rustc re-checks types)
+    'for-deref-pat-a': dict(pattern=r'(?<=for )&stop(?= in vec\.iter\(\))', replace=r'stop__r', spec='Rust pattern semantics'),
+    'for-deref-pat-b': dict(pattern=r'(?<=for &stop in vec\.iter\(\) \{)', replace=r' let stop = *stop__r;', spec='Rust pattern semantics'),
     # Verus: "does not yet support destructuring assignment".  (A, B) = (c, d) with c, d plain locals == A = c; B = d;
     'split-tuple-assign': dict(pattern=r'\(self\.lines, self\.columns\) = \(lines, columns\);', replace=r'self.lines = lines; self.columns = columns;',
                                spec='Rust semantics of destructuring assignment with local right-hand sides'),
